@@ -1,6 +1,7 @@
 package main
 
 import (
+	"context"
 	"fmt"
 	"strings"
 
@@ -26,12 +27,38 @@ type cfg12 struct {
 	second string // none, poll, nonpoll, eof
 	state  string // empty, small, atomic, metaonly
 	stats  bool   // server created WithStats()
+	// acl: server created WithACL whose per-call ACL is a VALUE of a type that
+	// cannot be hashed or compared ("map": a struct holding a map; "func": a
+	// function adapter) and allows everything - legal implementations of the
+	// RPCACL interface
+	acl string
 }
+
+type mapRPCACL struct{ allow map[string]bool }
+
+func (m mapRPCACL) Check(target string) bool { return m.allow[target] }
+
+type funcRPCACL func(string) bool
+
+func (f funcRPCACL) Check(target string) bool { return f(target) }
+
+type valueACL struct{ kind string }
+
+func (v valueACL) NewRPCACL(ctx context.Context) (subscribe.RPCACL, error) {
+	if v.kind == "func" {
+		return funcRPCACL(func(string) bool { return true }), nil
+	}
+	return mapRPCACL{allow: map[string]bool{"t1": true, "t2": true}}, nil
+}
+func (v valueACL) Check(user, target string) bool { return true }
 
 func (c cfg12) String() string {
 	st := ""
 	if c.stats {
 		st = " server=WithStats"
+	}
+	if c.acl != "" {
+		st += " server=WithACL(" + c.acl + "-valued per-call ACL)"
 	}
 	return fmt.Sprintf("first=%s prefix=%s mode=%d paths=%s updates_only=%v second=%s cache=%s%s", c.first, c.prefix, c.mode, c.paths, c.uo, c.second, c.state, st)
 }
@@ -55,8 +82,17 @@ func configs12(tier string) []xplore.Config {
 								if tier != "thorough" && state != "small" && (paths == "two" || paths == "a/star" || prefix == "notarget") {
 									continue
 								}
-								c := cfg12{first, prefix, mode, paths, uo, second, state, false}
+								c := cfg12{first, prefix, mode, paths, uo, second, state, false, ""}
 								out = append(out, xplore.Config{Name: c.String(), Bound: bound, Data: c})
+								// the same request against a server with an ACL whose per-call
+								// object is a value of an unhashable type
+								if state == "small" && first == "subscribe" && (prefix == "t1" || prefix == "star") && (paths == "a" || paths == "two") && second == "none" {
+									for _, k := range []string{"map", "func"} {
+										ca := c
+										ca.acl = k
+										out = append(out, xplore.Config{Name: ca.String(), Bound: bound, Data: ca})
+									}
+								}
 								// the same request against a server that keeps statistics
 								// (any int32 is a valid wire value of the mode enum)
 								if state == "small" && (paths == "a" || paths == "star") && !uo {
@@ -141,6 +177,9 @@ func run12(cfg xplore.Config, ch vrt.Chooser, trace bool) (xplore.Outcome, *vrt.
 		var sopts []subscribe.Option
 		if c.stats {
 			sopts = append(sopts, subscribe.WithStats())
+		}
+		if c.acl != "" {
+			sopts = append(sopts, subscribe.WithACL(valueACL{c.acl}))
 		}
 		w := newWorld([]string{"t1", "t2"}, sopts...)
 		switch c.state {
